@@ -27,15 +27,25 @@ CFG = {
         ("all-modes/len4", dict(ReqX="{TRUE, FALSE}", ReqY="{TRUE, FALSE}", MaxLen=4, MaxGen=2, Ops=ALL_OPS), {}),
         ("required/len5", dict(ReqX="{TRUE}", ReqY="{TRUE, FALSE}", MaxLen=5, MaxGen=2, Ops=ALL_OPS), {}),
         ("all-modes/sim-len12", dict(ReqX="{TRUE, FALSE}", ReqY="{TRUE, FALSE}", MaxLen=12, MaxGen=3, Ops=ALL_OPS),
-         dict(simulate=150000, depth=13)),
+         # (in simulation mode TLC evaluates the emitting invariant on every candidate successor of the last state,
+         #  so one generated trace yields up to |Ops| behaviours that share an 11-step prefix)
+         dict(simulate=12000, depth=13)),
     ],
 }
 
 
 # concurrent model (three racing tasks): operations each task may start
+# (label, constants, tlc mode). The G-edge run uses a VIEW (BFS-shortest schedule per abstract state), which assumes
+# the implementation's state is a function of the model state; the G-sim run prints the out-edges of every state along
+# random schedules with their real, unmerged prefix (longer programs: SRTP contexts, bridge stream tables, listener
+# bindings, first-packet flags ... carry history) and is replayed the same way.
 CONC = {
-    "quick": [("race/1-1-2", dict(ReqX="{TRUE, FALSE}", ReqY="{TRUE, FALSE}", MaxGen=2, NSnd=1, NRcv=1, NCtl=2))],
-    "thorough": [("race/2-2-3", dict(ReqX="{TRUE, FALSE}", ReqY="{TRUE, FALSE}", MaxGen=2, NSnd=2, NRcv=2, NCtl=3))],
+    "quick": [("race/1-1-2", dict(ReqX="{TRUE, FALSE}", ReqY="{TRUE, FALSE}", MaxGen=2, NSnd=1, NRcv=1, NCtl=2), {}),
+              ("race/sim-3-3-4", dict(ReqX="{TRUE, FALSE}", ReqY="{TRUE, FALSE}", MaxGen=3, NSnd=3, NRcv=3, NCtl=4),
+               dict(simulate=1500, depth=30))],
+    "thorough": [("race/2-2-3", dict(ReqX="{TRUE, FALSE}", ReqY="{TRUE, FALSE}", MaxGen=2, NSnd=2, NRcv=2, NCtl=3), {}),
+                 ("race/sim-4-4-5", dict(ReqX="{TRUE, FALSE}", ReqY="{TRUE, FALSE}", MaxGen=3, NSnd=4, NRcv=4, NCtl=5),
+                  dict(simulate=20000, depth=44))],
 }
 
 
@@ -129,7 +139,7 @@ def replay_file(ck, beh_path, label, tier, extra_env=None, mode="replay"):
     with concurrent.futures.ThreadPoolExecutor(max_workers=n) as ex:
         procs = list(ex.map(one, range(n)))
     summ = {"behaviours": 0, "steps": 0, "datagrams": 0, "deliveries": 0, "diverged": 0, "late": 0, "stale": 0,
-            "unspecified": 0, "ref_agree": 0, "ref_disagree": 0}
+            "unspecified": 0, "ref_agree": 0, "ref_disagree": 0, "foreign": 0}
     ref_seen = set()
     for i, p in enumerate(procs):
         if p.returncode != 0:
@@ -198,27 +208,28 @@ def run(tier):
                 o = json.loads(line)
                 if nontrivial(o):
                     nontriv.add(hashlib.blake2b(line.encode(), digest_size=8).digest())
-                if i % 20011 == 7 and len(ck.cov["samples"]) < 6:
-                    ck.cov["samples"].append(o)
+                if (i % 50021 == 7 or (o["rx"] and i % 30011 == 13)) and len(ck.cov["samples"]) < 6:
+                    ck.cov["samples"].append(f"required X={o['rx']} Y={o['ry']}: " + " ".join(
+                        f"{st[0]}[wire={st[1] or '-'} sinks={st[2] or '-'}]" for st in o["h"]))
         if not mode and not res["finished"]:
             exhaustive = False   # (simulation runs are extra; the exhaustive claim is about the bounded runs)
         if summ["behaviours"] != res["counts"]["REPLAY"]:
             raise vlib.ToolError(f"replayed {summ['behaviours']} of {res['counts']['REPLAY']} behaviours")
         ck.notes.append(f"{label}: {res['counts']['REPLAY']} behaviours, {summ['steps']} steps, "
                         f"{summ['datagrams']} datagrams classified, {summ['deliveries']} deliveries traced, "
-                        f"{summ['late']} datagrams arrived after their step's sentinel, {summ['stale']} stale; "
+                        f"{summ['late']} datagrams arrived after their step's sentinel, {summ['stale']} stale, {summ['foreign']} foreign (other senders) ignored; "
                         f"webrtc-srtp second opinion on protected datagrams: {summ['ref_agree']} agree, "
                         f"{summ['ref_disagree']} disagree")
         os.remove(beh)
     # ---- the same operations racing from three tasks: every (state, task step) edge of the concurrent model is
     # executed on the real transports under the baton scheduler (exact interleaving at the H7 sched points)
-    for label, consts in CONC[tier]:
+    for label, consts, mode in CONC[tier]:
         cfg = os.path.join(vlib.SPEC, f"MC_SrtpGateConc_{tier}_{os.getpid()}.gen.cfg")
         write_conc_cfg(cfg, consts, emit=True)
         edges = os.path.join(ck.dir, f"edges_{label.replace('/', '_')}.{os.getpid()}.ndjson")
         try:
             res = vlib.tlc("MC_SrtpGateConc", os.path.basename(cfg), tags=("EDGE",), sinks={"EDGE": edges},
-                           timeout=3000 if tier == "thorough" else 900, heap="8g", tag=f"MC_SrtpGateConc_{tier}")
+                           timeout=3000 if tier == "thorough" else 900, heap="8g", tag=f"MC_SrtpGateConc_{tier}", **mode)
         finally:
             try:
                 os.remove(cfg)
@@ -229,7 +240,7 @@ def run(tier):
         summ = replay_file(ck, edges, label, tier, mode="sched")
         if summ["behaviours"] != res["counts"]["EDGE"]:
             raise vlib.ToolError(f"executed {summ['behaviours']} of {res['counts']['EDGE']} schedules")
-        if not res["finished"]:
+        if not mode and not res["finished"]:
             exhaustive = False
         total += summ["behaviours"]
         ck.cov["evaluations"] += summ["steps"] + summ["datagrams"] + summ["deliveries"]
@@ -240,7 +251,9 @@ def run(tier):
                 if o["exp"][0] or o["exp"][1] or o["exp"][2] < 2 or o["exp"][3] < 2:
                     nontriv.add(hashlib.blake2b(line.encode(), digest_size=8).digest())
                 if i % 9973 == 11 and len(ck.cov["samples"]) < 10:
-                    ck.cov["samples"].append(o)
+                    ck.cov["samples"].append(f"race, required X={o['rx']} Y={o['ry']}: schedule " + " ".join(
+                        f"{e[0]}:{e[1] or '.'}>{e[2]}" for e in o["pre"] + [o["act"]]) +
+                        f" expects wire={o['exp'][0] or '-'} sinks={o['exp'][1] or '-'}")
         ck.notes.append(f"{label}: {res['counts']['EDGE']} (state, task step) edges executed as exact schedules, "
                         f"{summ['steps']} steps, {summ['datagrams']} datagrams classified, {summ['deliveries']} deliveries "
                         f"traced, {summ['unspecified']} schedules cut at a step whose outcome the model leaves unspecified")
@@ -305,10 +318,32 @@ def selftest():
     for dev, prop in (("send_rtp", "EgressOK"), ("sync_bye", "EgressOK"), ("bridge", "EgressOK"), ("recv_rtp", "IngressOK"),
                       ("recv_rtcp", "IngressOK"), ("AuthFailOpen", "IngressOK")):
         cfg = os.path.join(vlib.SPEC, f"MC_SrtpGateConc_selftest_{os.getpid()}.gen.cfg")
-        write_conc_cfg(cfg, CONC["quick"][0][1], emit=False, deviations=[dev])
+        write_conc_cfg(cfg, CONC["quick"][0][1], emit=False, deviations=[dev])  # (bounded run, no emission)
         res = vlib.tlc("MC_SrtpGateConc", os.path.basename(cfg), timeout=600, workers=4, tag="MC_SrtpGateConc_selftest")
         os.remove(cfg)
         hit = any(prop in e or "AllowedInside" in e for e in res["errors"])
         print(f"selftest: racing model, deviation {dev}: violates {prop}: {hit} ({res['errors'][:1]})")
         ok = ok and hit
+    # binding side: a corrupted expectation must be reported by the replayer (the comparison is live), and the
+    # uncorrupted behaviour must pass
+    vlib.build_harness(["gate"])
+    d = vlib.outdir(PID)
+    good = {"rx": False, "ry": False, "h": [["SR", "Xc", "", 2, 2, "E", "E", 0, 1], ["KX", "", "", 2, 2, "E", "E", 0, 1],
+                                              ["SC", "Xp", "", 2, 2, "E", "E", 0, 1], ["RvR", "", "ol", 2, 2, "E", "E", 1, 1]]}
+    bad_wire = json.loads(json.dumps(good))
+    bad_wire["h"][0][3] = 1          # pretend only protected datagrams may leave at step 1
+    bad_sink = json.loads(json.dumps(good))
+    bad_sink["h"][3][7] = 0          # pretend the valid packet of step 4 may not be delivered
+    for name, case, want in (("good", good, 0), ("corrupt-wire-allowance", bad_wire, 1), ("corrupt-delivery-allowance", bad_sink, 1)):
+        bp = os.path.join(d, f"selftest_{name}.{os.getpid()}.ndjson")
+        op = os.path.join(d, f"selftest_{name}.{os.getpid()}.out.ndjson")
+        vlib.write_ndjson(bp, [case])
+        p = vlib.run_bin("gate", ["replay", bp, op])
+        rows = vlib.read_ndjson(op) if p.returncode == 0 else []
+        n = sum(1 for r in rows if r.get("type") == "divergence" and r.get("rule") != "EXT")
+        print(f"selftest: replayer on {name}: {n} divergence(s) (expected {'some' if want else 'none'})")
+        ok = ok and p.returncode == 0 and ((n > 0) == bool(want))
+        os.remove(bp)
+        if os.path.exists(op):
+            os.remove(op)
     raise SystemExit(0 if ok else 2)
